@@ -413,14 +413,18 @@ def family_flags(pre, op):
             P.add('empties_optional_block')
     if not stmt_level and cont is not None:
         x = pre.extent(cont)
-        if not hasattr(cont, 'lineno') and not isinstance(cont, ast.arguments) and op.get('path'):
+        if not hasattr(cont, 'lineno') and not isinstance(cont, ast.arguments):
             # positionless container (comprehension, withitem, ...): the bracketed container is its nearest positioned ancestor
-            for k in range(len(op['path']), -1, -1):
-                anc = resolve(pre.tree, [tuple(p) for p in op['path'][:k]])
-                if anc is not None and hasattr(anc, 'lineno') and isinstance(anc, ast.expr):
-                    x = pre.extent(anc)
-                    cont = anc
-                    break
+            parents = {}
+            for n in ast.walk(pre.tree):
+                for ch in ast.iter_child_nodes(n):
+                    parents[id(ch)] = n
+            anc = parents.get(id(cont))
+            while anc is not None and not (hasattr(anc, 'lineno') and isinstance(anc, ast.expr)):
+                anc = parents.get(id(anc))
+            if anc is not None:
+                x = pre.extent(anc)
+                cont = anc
         if isinstance(cont, ast.arguments):  # the container is the parenthesized parameter list of the def
             owner = next((n for n in ast.walk(pre.tree) if getattr(n, 'args', None) is cont and isinstance(n, (ast.FunctionDef, ast.AsyncFunctionDef))), None)
             if owner is not None:
